@@ -45,12 +45,20 @@ func TestVerif_C37(t *testing.T) {
 		scs = f
 		r.NotExhaustive("C37_ONLY=" + only)
 	}
+	// The race build executes ~300 schedules/s per core (the detector allocates state per goroutine), far fewer than
+	// the plain build, and there are ~300 scenarios: each scenario gets an execution cap. Exploration is breadth-first in
+	// the number of deviations (all 0-deviation schedules, then 1, ...), so a capped scenario has covered the cheapest
+	// schedules completely; the evidence lists, per scenario, the bound it completed, and the run is exhaustive:false
+	// when any cap was hit.
+	capExec := vrt.Pick(r, int64(1200), int64(15000))
 	for i := range scs {
 		scs[i].RaceOnly = true
 		if scs[i].Cfg.Bound > bound {
 			scs[i].Cfg.Bound = bound
 		}
+		scs[i].Cfg.MaxExec = capExec
 	}
+	r.Set("execution_cap_per_scenario", fmt.Sprint(capExec))
 	r.Set("scenarios", fmt.Sprint(len(scs)))
 	r.Set("preemption_bound", fmt.Sprint(bound))
 	mcx.Run(r, scs)
